@@ -1009,6 +1009,46 @@ package rueidis
 //@   assert [C27 the-hook-sees-exactly-the-servers-invalidation] at onInvalidations#4: !values[1].IsNil() && arg0 == values[1].values()
 
 // ---------------------------------------------------------------------------------------------
+// C02 — the ring queue's slot state machine (ring.go), per operation, sequentially: a slot is free (mark 0), filled (1) or
+// handed to the writer (2). A producer fills only a free slot of its own ticket; the writer takes only a filled slot, in
+// ticket order, exactly once; the reader takes only a slot the writer has taken, in ticket order, and frees it.
+//@ typeinv ring len(self.store) >= 1 && int(self.mask) == len(self.store) - 1
+// (newRing establishes the invariant above: store of size 2^factor, mask = size-1; its loop over sync.NewCond / make(chan) is not under contract — the invariant is ASSUMED for every ring the operations below receive)
+//@ func ring.PutOne
+//@   mode bv
+//@   safety C02 index,slice
+//@   modifies *
+//@   assert [C02 a-producer-waits-only-while-its-slot-is-occupied] at Wait: n.mark != 0
+//@   assert [C02 a-producer-fills-only-a-free-slot-and-marks-it-filled] at Unlock: n.mark == 1 && n.one == m
+//@   ensures [C02 the-caller-waits-on-the-channel-of-the-slot-it-filled where-defined] result0 == n.ch && result1 == nil
+//@ func ring.PutMulti
+//@   mode bv
+//@   safety C02 index,slice
+//@   modifies *
+//@   assert [C02 a-producer-waits-only-while-its-slot-is-occupied] at Wait: n.mark != 0
+//@   assert [C02 a-producer-fills-only-a-free-slot-and-marks-it-filled] at Unlock: n.mark == 1 && n.multi == m && n.resps == resps
+//@   ensures [C02 the-caller-waits-on-the-channel-of-the-slot-it-filled where-defined] result0 == n.ch && result1 == nil
+//@ func ring.NextWriteCmd
+//@   mode bv
+//@   safety C02 index,slice
+//@   modifies *
+//@   ensures [C02 the-writer-takes-the-next-ticket-only-when-it-is-filled-and-takes-it-once where-defined] old(n.mark) == 1 ==> (n.mark == 2 && r.read1 == old(r.read1) + 1 && ch == n.ch && one == old(n.one) && multi == old(n.multi))
+//@   ensures [C02 an-unfilled-ticket-is-not-skipped where-defined] old(n.mark) != 1 ==> (n.mark == old(n.mark) && r.read1 == old(r.read1) && ch == nil && multi == nil)
+//@ func ring.WaitForWrite
+//@   mode bv
+//@   safety C02 index,slice
+//@   modifies *
+//@   assert [C02 the-writer-sleeps-only-while-its-next-ticket-is-not-filled] at Wait: n.mark != 1 && n.slept
+//@   ensures [C02 the-writer-takes-the-next-ticket-only-when-it-is-filled where-defined] n.mark == 2 && ch == n.ch
+//@ func ring.NextResultCh
+//@   mode bv
+//@   safety C02 index,slice
+//@   modifies *
+//@   ensures [C02 the-reader-takes-the-next-ticket-only-after-the-writer-took-it-and-frees-the-slot where-defined] old(n.mark) == 2 ==> (n.mark == 0 && r.read2 == old(r.read2) + 1 && ch == n.ch && one == old(n.one) && multi == old(n.multi) && resps == old(n.resps) && n.multi == nil && n.resps == nil)
+//@   ensures [C02 a-ticket-not-yet-written-is-not-skipped where-defined] old(n.mark) != 2 ==> (n.mark == old(n.mark) && r.read2 == old(r.read2) && ch == nil && multi == nil && resps == nil)
+//@   ensures [C02 the-lock-kept-for-the-result-is-the-slots] r.resc != nil
+
+// ---------------------------------------------------------------------------------------------
 // C07 — cached replies expire at the earlier of the client TTL and the server PTTL (message.go, lru.go).
 // The expiry of a cached message is the 56-bit little-endian number kept in RedisMessage.ttl (0 = none).
 //@ func RedisMessage.setExpireAt
